@@ -34,7 +34,7 @@ theorem C15_streams_full (cfg : Cfg) (st0 : St) (mods : List ModSpec) (ios : Lis
     (runBuild cfg mods ios st0).w.fault = false ∧
     (runBuild cfg mods ios st0).cm = some ⟨cfg.method, none⟩ ∧
     (runBuild cfg mods ios st0).w.py.dbFd = none := by
-  obtain ⟨r, a, _, _, _, d⟩ := build_restores cfg st0 mods ios hcf hw
+  obtain ⟨r, a, _, _, _, d, _⟩ := build_restores cfg st0 mods ios hcf hw
   exact ⟨r.fd, r.stdin, r.stdout, r.stderr, r.count, r.nofault, a, d⟩
 
 /-- **C15_noleak** (replaces `C15_leak_now` of the code before 124aca8). (a) Per build, from any state: the number
@@ -69,7 +69,7 @@ theorem C15_release (cfg : Cfg) (st0 : St) (mods : List ModSpec) (ios : List Tas
     (hm : cfg.method = .fd) (hcf : cfg.configFails = false) (hw : StdW st0.w)
     (hg : st0.w.py.garbage = []) (hdb : st0.w.py.dbFd = none) (hcm : (st0.cm.map CM.owned).getD [] = []) :
     (release cfg (runBuild cfg mods ios st0)).w.os = (runBuild cfg mods ios st0).w.os := by
-  obtain ⟨_, _, _, _, _, _, _, _, _, _, _, _, _, _, _, _, g⟩ := build_fd cfg st0 mods ios hm hcf hw
+  obtain ⟨_, _, _, _, _, _, _, _, _, _, _, _, _, _, _, _, g, _⟩ := build_fd cfg st0 mods ios hm hcf hw
   simp [release, step, g, hg, hdb, hcm]
 
 /-- **C15_misc.** On every path that passed configuration, whatever the method and whatever the tasks did (they
@@ -84,7 +84,7 @@ theorem C15_misc (cfg : Cfg) (st0 : St) (mods : List ModSpec) (ios : List TaskIO
     (runBuild cfg mods ios st0).w.py.reportVars = 0 ∧
     (runBuild cfg mods ios st0).w.py.provisional = [] ∧
     (runBuild cfg mods ios st0).w.py.collected = [] := by
-  obtain ⟨r, _, a, b, c, _⟩ := build_restores cfg st0 mods ios hcf hw
+  obtain ⟨r, _, a, b, c, _, _⟩ := build_restores cfg st0 mods ios hcf hw
   exact ⟨r.filters, r.setTrace, r.pdbSaved, a, b, c⟩
 
 /-- **C15_config_failure.** A build whose configuration fails touches nothing the property names. If it fails before any
@@ -126,6 +126,44 @@ theorem C15_samebuilds_partial (mods : List ModSpec) (h : ∀ m ∈ mods, m.deco
   unfold collectedAt
   rw [(collectAll_plain mods h _ (key k)).1, (collectAll_plain mods h _ (key 0)).1]
 
+/-- `COLLECTED_TASKS` is empty after any sequence of builds that started with it empty -/
+private theorem builds_collected (bs : List BuildArgs) (st0 : St) (hw : StdW st0.w) (hc : st0.w.py.collected = []) :
+    (runBuilds bs st0).w.py.collected = [] ∧ StdW (runBuilds bs st0).w := by
+  induction bs generalizing st0 with
+  | nil => exact ⟨hc, hw⟩
+  | cons b bs ih =>
+    have h1 : (runBuild b.cfg b.mods b.ios st0).w.py.collected = [] ∧ StdW (runBuild b.cfg b.mods b.ios st0).w := by
+      have hr := builds_restore [b] st0 hw
+      refine ⟨?_, hr.std hw⟩
+      cases hcf : b.cfg.configFails
+      · exact (build_restores b.cfg st0 b.mods b.ios hcf hw).2.2.2.2.1
+      · obtain ⟨r, e⟩ := (runBuild_configFails b.cfg st0 b.mods b.ios hcf).1
+        rw [e]; exact hc
+    exact ih _ h1.2 h1.1
+
+/-- **C15_samebuilds_seq** — consecutive builds, as far as the capture model can speak about outcomes. For a project outside
+the F7 class (tasks declared by name prefix only, every module imports) a build that follows ANY sequence of earlier builds in
+the process — other projects, any capture methods, dry runs, failing configurations, failing collections — collects exactly
+the tasks, with the same collection verdict, that the same build collects in any other process state, e.g. a fresh process.
+(Since b7e10b4, F30, the marks of a collected task are a fresh copy per build. The per-task *outcomes* — skipped, would be
+executed, selected by `-k` / `-m`, failed — are inputs of this model (`TaskIO`), not computed by it: their equality with
+fresh-process builds is checked by the C15 campaign's oracle only, see `oracle_only` in evidence/C15.json.) -/
+theorem C15_samebuilds_seq (mods : List ModSpec) (h : ∀ m ∈ mods, m.decorated = [] ∧ m.fails = false)
+    (bs : List BuildArgs) (st0 fresh0 : St) (hw : StdW st0.w) (hwf : StdW fresh0.w)
+    (hc : st0.w.py.collected = []) (hcf : fresh0.w.py.collected = [])
+    (cfg : Cfg) (ios : List TaskIO) (hcfg : cfg.configFails = false) :
+    (runBuild cfg mods ios (runBuilds bs st0)).tasks = (runBuild cfg mods ios fresh0).tasks ∧
+    (runBuild cfg mods ios (runBuilds bs st0)).collectFailed = (runBuild cfg mods ios fresh0).collectFailed ∧
+    (runBuild cfg mods ios fresh0).tasks = mods.flatMap (fun m => m.plain.map (fun f => (m.id, f))) ∧
+    (runBuild cfg mods ios fresh0).collectFailed = false := by
+  obtain ⟨hc', hw'⟩ := builds_collected bs st0 hw hc
+  obtain ⟨_, _, _, _, _, _, P, p1, _, p3, p4⟩ := build_restores cfg (runBuilds bs st0) mods ios hcfg hw'
+  obtain ⟨_, _, _, _, _, _, Q, q1, _, q3, q4⟩ := build_restores cfg fresh0 mods ios hcfg hwf
+  have eP := (collectAll_plain mods h P (by rw [p1, hc'])).1
+  have eQ := (collectAll_plain mods h Q (by rw [q1, hcf])).1
+  rw [p3, p4, q3, q4, eP, eQ]
+  exact ⟨rfl, rfl, rfl, rfl⟩
+
 /-! ## Non-vacuity -/
 
 example : StdW w0 := w0_std
@@ -142,6 +180,13 @@ example :
 example :
     (runBuilds [⟨{ method := .fd }, [], ios1⟩, ⟨{ method := .sys }, [], ios1⟩, ⟨{ method := .fd, configFails := true }, [], []⟩, ⟨{ method := .sys, configFails := true, failsInDatabase := true }, [], []⟩,
                 ⟨{ method := .teeSys }, [], ios1⟩, ⟨{ method := .no }, [], ios1⟩] { w := w0 }).w.os.count = 3 := by decide +kernel
+
+/-- `C15_samebuilds_seq` on a concrete process: after an fd-mode build of another project (with an `@task` function and a
+failing import) and a failing configuration, the two-module project collects what a fresh process collects -/
+example :
+    (runBuild { method := .sys } [⟨1, [], [1, 2], false⟩, ⟨2, [], [3], false⟩] []
+      (runBuilds [⟨{ method := .fd }, [⟨9, [5], [6], false⟩, ⟨4, [], [1], true⟩], ios1⟩, ⟨{ configFails := true }, [], []⟩] { w := w0 })).tasks
+      = [(1, 1), (1, 2), (2, 3)] := by decide +kernel
 
 /-- the hypothesis of `C15_samebuilds_partial` on a two-module project, and its conclusion for the 3rd build -/
 example : collectedAt [⟨1, [], [1, 2], false⟩, ⟨2, [], [3], false⟩] 2 = ([(1, 1), (1, 2), (2, 3)], false) := by decide +kernel
